@@ -327,6 +327,10 @@ func mulInline(xVal, yVal uint64, xNeg, yNeg bool) (zVal uint64, zNeg, ok bool) 
 	hi, lo := bits.Mul64(xVal, yVal)
 	neg := xNeg != yNeg
 	overflow := hi != 0
+	if lo == 0 {
+		// Zero is never negative.
+		neg = false
+	}
 	return lo, neg, !overflow
 }
 
@@ -337,6 +341,10 @@ func quoInline(xVal, yVal uint64, xNeg, yNeg bool) (quoVal uint64, quoNeg, ok bo
 	}
 	quo := xVal / yVal
 	neg := xNeg != yNeg
+	if quo == 0 {
+		// Zero is never negative.
+		neg = false
+	}
 	return quo, neg, true
 }
 
@@ -346,6 +354,10 @@ func remInline(xVal, yVal uint64, xNeg, yNeg bool) (remVal uint64, remNeg, ok bo
 		return 0, false, false
 	}
 	rem := xVal % yVal
+	if rem == 0 {
+		// Zero is never negative.
+		xNeg = false
+	}
 	return rem, xNeg, true
 }
 
@@ -710,7 +722,8 @@ func (z *BigInt) MulRange(x, y int64) *BigInt {
 func (z *BigInt) Neg(x *BigInt) *BigInt {
 	if x.isInline() {
 		z._inline = x._inline
-		if x._inner == negSentinel {
+		if x._inner == negSentinel || x._inline == [inlineWords]big.Word{} {
+			// Zero is never negative.
 			z._inner = nil
 		} else {
 			z._inner = negSentinel
